@@ -315,6 +315,18 @@ class CStoreScpTask(Task):
         me = Env("assoc", cls=I.repo.cls(f"{ASSOC}:Association"))
         me.attrs["_accepted_cx"] = acc
         me.attrs["dimse"] = Env("assoc.dimse")
+        # the contexts the peer rejected: any number, ids 0..255 (what a context-id byte can hold)
+        rcls = I.repo.cls(f"{PR}:PresentationContext")
+        rid_f = z3.Function("rejected_cx_id", INT, INT)
+        n_rej = I.input("int", "n_rejected")
+        I.assume(n_rej.e >= 0)
+
+        def rejected(j):
+            o = Obj(rcls, tag="rejected_cx")
+            o.fields.update(_context_id=SV(rid_f(j), "int"), _abstract_syntax=UIDv(z3.Function("rejected_cx_ab", INT, INT)(j)),
+                            _transfer_syntax=[], result=3, _as_scu=False, _as_scp=False, _scu_role=None, _scp_role=None)
+            return o
+        me.attrs["rejected_contexts"] = SymSeq("rejected_contexts", n_rej.e, rejected)
         req = Env("req")
         sop = UIDv(I.input("int", "AffectedSOPClassUID").e)
         rid = I.input("int", "request_context_id")
@@ -327,8 +339,11 @@ class CStoreScpTask(Task):
         handlers = [e for e in tr if e.name == "handler"]
         sends = [e for e in tr if e.name == "send_msg"]
         a = g.get("gvc_args", {})
-        I.ob(f"{P}/context-is-looked-up-by-the-request's-own-context-id-SOP-class-and-SCP-role",
-             a.get("context_id") is rid and a.get("ab_syntax") is sop and a.get("role") == "scp", detail=repr({k: v for k, v in a.items() if k != 'self'}))
+        if a or handlers:
+            # whenever a context is looked up at all (and always before a handler runs), it is looked up by the request's own
+            # context id, SOP class and the SCP role
+            I.ob(f"{P}/context-is-looked-up-by-the-request's-own-context-id-SOP-class-and-SCP-role",
+                 a.get("context_id") is rid and a.get("ab_syntax") is sop and a.get("role") == "scp", detail=repr({k: v for k, v in a.items() if k != 'self'}))
         if handlers:
             cxt = handlers[0].args[1].get("context") if isinstance(handlers[0].args[1], dict) else None
             # the handler must only run for a request that arrived on an ACCEPTED context id: the context used must be the
